@@ -263,9 +263,10 @@ package kv
 // the sequence waiters, whether or not change notifications are enabled.
 //
 //@ func db.applyPut(d, batch, notifications, putReq, timestamp, updateOperationCallback, internal) (res, err)
-//@ property C12 C13 C15 C16
+//@ property C12 C13 C15 C16 C14
 //@ requires batch != nil && putReq != nil && updateOperationCallback != nil && d.sequenceWaiterTracker != nil && d.log != nil && (notifications != nil ==> nbOk(notifications))
 //@ requires d.versionIdTracker.v >= -1 && d.versionIdTracker.v < 4611686018427387904
+//@ assert at call OnPut#0: req == putReq && (old(len(putReq.SequenceKeyDelta)) > 0 ==> putReq.Key == callres_generateUniqueKeyFromSequences_0_0)
 //@ assert at call MarshalVT#0: se.SecondaryIndexes == putReq.SecondaryIndexes && se.Value == putReq.Value && se.SessionId == putReq.SessionId && se.ClientIdentity == putReq.ClientIdentity && se.PartitionKey == putReq.PartitionKey && se.ModificationTimestamp == timestamp
 //@ assert at call MarshalVT#0: !internal ==> se.VersionId == d.versionIdTracker.v && d.versionIdTracker.v == old(d.versionIdTracker.v) + 1
 //@ ensures old(len(putReq.SequenceKeyDelta)) > 0 ==> ghost(seqUpdates, d.sequenceWaiterTracker) == old(ghost(seqUpdates, d.sequenceWaiterTracker)) + 1
@@ -396,9 +397,12 @@ package kv
 // nothing; no request content makes it panic (in particular with notifications off).
 //
 //@ func db.applyDelete(d, batch, notifications, delReq, updateOperationCallback) (res, err)
-//@ property C12 C13
+//@ property C12 C13 C17
 //@ requires batch != nil && delReq != nil && updateOperationCallback != nil && d.log != nil && (notifications != nil ==> nbOk(notifications))
+//@ assert at call checkExpectedVersionId#0: key == delReq.Key && expectedVersionId == delReq.ExpectedVersionId
 //@ ensures err == nil ==> res != nil
+//@ ensures err == nil && res.Status != 0 && notifications != nil ==> forall k string :: (inmap(notifications.batch.Notifications, k) <==> old(inmap(notifications.batch.Notifications, k))) && notifications.batch.Notifications[k] == old(notifications.batch.Notifications[k])
+//@ ensures err == nil && res.Status != 0 ==> forall k string :: (ghset(deleted, batch, k) <==> old(ghset(deleted, batch, k))) && (ghset(present, batch, k) <==> old(ghset(present, batch, k)))
 //@ modifies ghset(present, batch), ghset(deleted, batch), fields(proto.StorageEntry), fields(map[string]*proto.Notification)
 
 // ---------------------------------------------------------------- notification retention (C17)
@@ -660,3 +664,32 @@ package kv
 //@ trusted
 //@ modifies nothing
 //@ ensures err == nil ==> loader != nil
+
+// A point delete in a Pebble batch is an ordinary delete tombstone (it hides every older
+// version of the key), never a single-delete.
+//
+//@ func PebbleBatch.Delete
+//@ property C12
+//@ trusted
+//@ forbids SingleDelete
+//@ modifies *
+//@ note trusted body (Pebble batch); only the structural obligation is checked
+
+//@ func notificationsTrimmer.getFirstLast(t) (first, last, err)
+//@ trusted
+//@ modifies nothing
+//@ ensures err == nil && last != -1 ==> 0 <= first && first <= last && last < 4611686018427387904
+//@ note trusted: first and last stored notification offsets (two bounded scans of the notification key range); scope: offsets below 2^62
+
+// One trimming round: the cut-off search runs over the whole stored range [first, last]
+// (the first batch is part of it), and what is deleted is exactly the range of batches from
+// the first one up to the batch the search returned — by the contract of binarySearch every
+// batch after it is younger than the cut-off, so no batch within the retention time is lost.
+//
+//@ func notificationsTrimmer.trimNotifications(t) (err)
+//@ property C17
+//@ requires t.kv != nil && t.log != nil && t.clock != nil
+//@ assume forall a int64, b int64 :: 0 <= a && a <= b ==> nbTime(t, a) <= nbTime(t, b) because "timestamps of stored batches do not decrease with the offset (one leader clock per term; clock steps backwards across leader changes are outside the scope — observed by a sub-agent, see DESIGN §0.3)"
+//@ assert at call binarySearch#0: firstOffset == callres_getFirstLast_0_0 && lastOffset == callres_getFirstLast_0_1
+//@ assert at call DeleteRange#0: lowerBound == nbKey(callres_getFirstLast_0_0) && upperBound == nbKey(callres_binarySearch_0_0 + 1)
+//@ modifies *
